@@ -8,12 +8,15 @@ import GLua.Spec.StackSpec
     push v | pop n | settop i | insert v i | remove i | replace i v | nop        => ok <list 1..top> | err | ?
     get i => v        gettop => n        sweep => Get(-(top+2)) … Get(top+2)
     call nargs nret ; junk… ; produced…  => ok <list>        (callR with a callee leaving `produced`)
-    pcallfail nargs ; junk…              => ok <list>        (recovery path of PCall)
+    pcallfail nargs [path] ; junk…       => ok <list>        (PCall's deferred function; path = none | returned | failed | either:
+                                                              no handler / the handler returned / the handler itself failed)
     ret gfnret wantret => <values the caller received>       (callGFunction)
     resync <cap> <slot…>                                     dead slots above top after callee code ran
     snap => <top> <cap> <slot…>                              whole registry (Model) / caller prefix (Spec)
     eq <label> <got…> | <want…>                              Impl-vs-Impl / Impl-vs-constant observation
     objlen <class> <lua result> => <api result>
+    pframe <T|F> <registry> <globals> <thread env> <fn env|-> <upvalue…>   cells behind the pseudo-indices on entry
+    pget i => v        preplace i v <T|F: v is a table> => ok <list 1..top> | err       (Get / Replace at a pseudo-index)
 -/
 namespace GLua.Eng.ApiEng
 open GLua GLua.Eng GLua.ApiStack
@@ -23,6 +26,8 @@ structure St where
   pre   : List Slot := []          -- caller prefix on entry (slots below base)
   spec  : StackSpec.Stk := []
   alive : Bool := false            -- false after an error ended the activation
+  p     : ApiStack.PSt := { registry := none, globals := none, threadEnv := none, frame := none }   -- pseudo-index cells (Model)
+  cells : StackSpec.Cells := { registry := none, environ := none, globals := none, upvalues := [] } -- … (Spec)
 
 def parseSlot (s : String) : Option Slot :=
   if s == "G" then some .goNil else (parseVal s).map Slot.val
@@ -166,6 +171,53 @@ def handle (st : St) (ws : List String) : St × Verdict :=
           if c = st.m.reg.array.length ∨ c ≥ st.m.reg.top then ok else { model := some "resync: cap below top" })
       | _, _ => (st, bad)
     | ["nop"] => mutVerdict impl (.ok st.m) (some (some st.spec)) st
+    | "pframe" :: hf :: rg :: gl :: te :: env :: ups =>
+      -- the cells behind the pseudo-indices on entry: <T|F running function> <registry> <globals> <thread env> <fn env|-> <upvalues…>
+      match parseVal rg, parseVal gl, parseVal te, ups.mapM parseVal with
+      | some rg, some gl, some te, some ups =>
+        let fenv : OVal := (parseVal env).getD none
+        let frame : Option FnCells := if hf = "T" then some { env := fenv, ups := ups } else none
+        ({ st with p := { registry := rg, globals := gl, threadEnv := te, frame := frame },
+                   cells := { registry := rg, environ := if hf = "T" then fenv else te, globals := gl, upvalues := ups } }, ok)
+      | _, _, _, _ => (st, bad)
+    | ["pget", i] =>
+      match parseInt i with
+      | some i =>
+        let mres := match getPseudo st.p i with
+          | .ok v => OVal.show v
+          | .error e => e.show
+        -- Spec: the cell the manual names; at top level the manual gives no meaning to upvalue indices
+        let sv : Option String := match StackSpec.pseudoOf i with
+          | some (.upvalue n) =>
+            if st.p.frame.isNone then none
+            else let w := OVal.show (StackSpec.pseudoGet st.cells (.upvalue n)); if impl = [w] then none else some ("spec upvalue " ++ w)
+          | some which => let w := OVal.show (StackSpec.pseudoGet st.cells which); if impl = [w] then none else some ("spec pseudo get " ++ w)
+          | none => some "not a pseudo-index"
+        (st, { model := cmpModel mres impl, spec := sv })
+      | none => (st, bad)
+    | ["preplace", i, v, tb] =>
+      match parseInt i, parseVal v with
+      | some i, some v =>
+        let isTable := tb = "T"
+        let mp := replacePseudo st.p i v isTable
+        -- Spec: the store goes to the named cell (error for a non-table registry / environment / globals, and for the
+        -- environment when no function is running); the list is never touched
+        let sp : Option StackSpec.Cells := match StackSpec.pseudoOf i with
+          | some .environ => if st.p.frame.isNone then none else StackSpec.pseudoSet st.cells .environ v isTable
+          | some which => StackSpec.pseudoSet st.cells which v isTable
+          | none => none
+        let mres : Except Err ApiStack.St := match mp with
+          | .ok _ => .ok st.m
+          | .error e => .error e
+        let (st', vd) := mutVerdict impl mres (sp.map fun _ => some st.spec) st
+        let st' := match mp with
+          | .ok p' => { st' with p := p' }
+          | .error _ => st'
+        let st' := match sp with
+          | some c => { st' with cells := c }
+          | none => st'
+        (st', vd)
+      | _, _ => (st, bad)
     | ["get", i] =>
       match parseInt i with
       | some i =>
@@ -197,15 +249,32 @@ def handle (st : St) (ws : List String) : St × Verdict :=
         | _, _ => (st, bad)
       | _, _, _ => (st, bad)
     | "pcallfail" :: na :: rest =>
+      -- optional token before `;`: the exit path of PCall's deferred function (none | returned | failed | either)
       match na.toNat?, splitSemi rest with
-      | some na, [[], junk] =>
-        match junk.mapM parseVal with
-        | some junk =>
-          -- registry at failure time: the callee frame pushed `junk` above the arguments
+      | some na, [pre, junk] =>
+        let paths : Option (List RecoverPath) := match pre with
+          | [] => some [.noHandler]
+          | ["none"] => some [.noHandler]
+          | ["returned"] => some [.handlerReturned]
+          | ["failed"] => some [.handlerFailed]
+          | ["either"] => some [.handlerReturned, .handlerFailed]
+          | _ => none
+        match junk.mapM parseVal, paths with
+        | some junk, some paths =>
+          -- registry at failure time: the callee frame pushed `junk` above the arguments; the frame that is current
+          -- when the path is taken is a dead one (the callee's, LocalBase = base+1; a handler's lies above the junk)
           let atFail := junk.foldlM (fun r v => regPush r v) st.m.reg
-          let mres := atFail >>= fun r => pcallRecover st.m na r
-          mutVerdict impl mres (some (some (StackSpec.callFailed st.spec na))) st
-        | none => (st, bad)
+          let run (p : RecoverPath) : St × Verdict :=
+            let deadBase := if p = .noHandler then st.m.reg.top - na else st.m.reg.top + junk.length + 3
+            let mres := atFail >>= fun r => pcallDeferred st.m na p { reg := r, base := deadBase }
+            mutVerdict impl mres (some (some (StackSpec.callFailed st.spec na))) st
+          match paths.map run with
+          | [] => (st, bad)
+          | (st', v) :: more =>
+            (st', match more.find? (fun x => x.2.model.isSome ∨ x.2.spec.isSome) with
+                  | some x => if v.model.isSome ∨ v.spec.isSome then v else x.2
+                  | none => v)
+        | _, _ => (st, bad)
       | _, _ => (st, bad)
     | ["ret", g, w] =>
       match g.toNat?, parseInt w with
